@@ -1,15 +1,21 @@
-(* C17 — The command-line tool's commands agree with each other and with the input files
-   (PARTIAL: clap parsing, process exit plumbing, tar header encoding, humansize formatting and
-   the file system are outside the model; the agreement of the commands is observed end to end
-   by the correspondence job c17 on the real binary).  What is logic is pinned here:
-     - cat / extract / to-tar / convert / list -vv all read through get_file, get_hash and
-       linear_extract of the library, whose results on any archive the writer produced are the
-       bytes given, their count and their SHA-256 (round-trip theorems of C01, any layer stack
-       refining a cursor: C11), and linear extraction delivers to chosen names only (C12);
-     - the key policy: no key / a non-recipient key never yields a session key (up to an
-       exhibited tag collision), and a key supplied for an unencrypted archive is refused before
-       anything is read (Tie A on mlar/src/main.rs).
-   Only statements, `exact`, `Check` pins, `Print Assumptions`. *)
+(* C17 — The command-line tool's commands agree with each other and with the input files.
+
+   The command LOGIC of mlar/src/main.rs is modelled in theories/Cli.v (create, list, list -vv, cat, to-tar, convert, both
+   forms of extract, the key policy of open_mla_file), theories/CliRepair.v (repair) and theories/Tar.v (the bytes the tar
+   crate 0.4.44 emits + an independent tar reader), as compositions of the library model; the theorems below are
+   compositions of C01_archive_roundtrip (ArchiveProofs.archive_roundtrip_refines: the same statement with the refinement
+   exposed), C12_linear_delivers_written, C16_benign_extracted(_linear), C05_repair_(encrypted_)intact_complete.
+   Vocabulary: Cli.made_by_create = the premises of C01_archive_roundtrip for the add_file calls create makes + "no -k for an
+   archive without encryption"; Cli.sorted_files / lookup_file; cres = (exit status 0?, output file effect, stdout);
+   Tar.member_ok / tar_name.
+   STILL PARTIAL (observed by job c17 only): clap, key-file reading, stderr, humansize, glob forms, stdin input, the directory
+   walk, creation of a missing output directory; repair of compressed sources and the re-reading of repaired bytes.
+   FINDINGS: two were repaired in /repo (9ea79db repair refuses a key for an unencrypted archive; 6302e72 to-tar's dry run) — the
+   repaired behaviour is proved (C17_repair_key_for_unencrypted_fails, C17_to_tar_refused_member_leaves_nothing /
+   C17_to_tar_reads_back) and the old code is kept as refuted models (C17_repair_key_old_code_refuted,
+   C17_to_tar_dotdot_old_code_refuted).  Still true of the code: C17_to_tar_dotdot_member_omitted (known finding
+   K17-totar-dotdot-omitted), C17_cat_missing_name_exit0.
+   Only statements, `exact`, `Check` pins, `Print Assumptions`, non-vacuity Examples. *)
 From MLA Require Import Base Stream Blocks Writer Reader RoundTripBlocks RoundTripReader RoundTripWriter RoundTripRun RoundTripGlue RoundTrip Ecies EciesGcm LinearProofs.
 From Coq Require Import Permutation.
 From MLAGen Require Src.
@@ -93,3 +99,859 @@ Print Assumptions C17_linear_form_only_chosen.
 Print Assumptions C17_missing_key_fails.
 Print Assumptions C17_wrong_key_fails.
 Print Assumptions C17_key_for_unencrypted_archive_is_refused.
+
+(* ====================================================================================================
+   work package cli17: the commands themselves *)
+From MLA Require Import CompLayer EncLayer Format Archive ArchiveProofs LinearRoundTripDefs LinearRoundTrip
+  Path PathProofs PathBenign Tar TarProofs Cli CliProofs CliArchive CliCompose CompFailSafe Repair RepairSpec RepairProofs6
+  CliRepair CliRepairProofs CliRepairIntact.
+
+(* create exits 0 and leaves an archive; list on it (any candidate keys holding a recipient's key; none for an archive
+   without encryption) prints exactly the given paths, sorted, one per line — or a wrapped key's tag collides *)
+Theorem C17_create_lists_given_paths :
+  forall (CHUNK TAG CIPHERBUF BLOCK LIMIT FNMAX TS TC TA TE : N) (H : bytes -> bytes) (order : footer -> footer)
+  (pubk : bytes -> bytes) (dh : bytes -> bytes -> bytes) (kdf : bytes -> bytes) (wenc wdec wtag : bytes -> bytes -> bytes)
+  (ksf : bytes -> bytes -> N -> N -> N) (tagf : bytes -> bytes -> N -> bytes -> bytes) (dec : bytes -> bytes),
+  0 < CHUNK ->
+  0 < TAG ->
+  0 < CIPHERBUF ->
+  0 < BLOCK ->
+  BLOCK < 2 ^ 32 ->
+  (forall x : bytes, len (H x) = 32) ->
+  (forall f : footer, Permutation (order f) f) ->
+  (forall (k : bytes) (m : list N), len m = 32 -> wdec k (wenc k m) = m) ->
+  (forall e : bytes, len (pubk e) = 32) ->
+  (forall (k : bytes) (m : list N), len m = 32 -> len (wenc k m) = 32) ->
+  (forall k c : bytes, len (wtag k c) = 16) ->
+  forall (cfg : wconfig) (ct cm : list N) (files : list (bytes * bytes)) (sf : wstate) (rs : list (res N))
+  (privs : list bytes) (s : bytes),
+  made_by_create CHUNK TAG BLOCK LIMIT FNMAX TS TC TA TE H order pubk dh kdf wenc wtag ksf tagf dec cfg files sf rs privs s ->
+  exists a : bytes,
+  cmd_create CHUNK CIPHERBUF BLOCK LIMIT FNMAX TS TC TA TE H order pubk dh kdf wenc wtag ksf tagf cfg ct cm files =
+  {| cr_ok := true; cr_out := OWritten a; cr_stdout := [] |} /\
+  (TagCollision pubk dh kdf wenc wtag (wc_eph cfg) (wc_key cfg) (wc_recipients cfg) privs \/
+  cmd_list_a CHUNK TAG BLOCK LIMIT dh kdf wdec wtag ksf tagf dec a privs =
+  {|
+  cr_ok := true; cr_out := OUntouched; cr_stdout := flat_map (fun n : list N => n ++ [NL]) (sort_names (map fst files))
+  |}).
+Proof. exact create_lists_given_paths. Qed.
+
+(* list -vv: per sorted name the true byte count and H of the bytes (H = SHA-256 in the instance; the line shows the size
+   through humansize, not modelled, and the hash in hex) *)
+Theorem C17_list_verbose_true_size_and_hash :
+  forall (CHUNK TAG CIPHERBUF BLOCK LIMIT FNMAX TS TC TA TE : N) (H : bytes -> bytes) (order : footer -> footer)
+  (pubk : bytes -> bytes) (dh : bytes -> bytes -> bytes) (kdf : bytes -> bytes) (wenc wdec wtag : bytes -> bytes -> bytes)
+  (ksf : bytes -> bytes -> N -> N -> N) (tagf : bytes -> bytes -> N -> bytes -> bytes) (dec : bytes -> bytes),
+  0 < CHUNK ->
+  0 < TAG ->
+  0 < CIPHERBUF ->
+  0 < BLOCK ->
+  BLOCK < 2 ^ 32 ->
+  tags_distinct TS TC TA TE ->
+  (forall x : bytes, len (H x) = 32) ->
+  (forall f : footer, Permutation (order f) f) ->
+  (forall (k : bytes) (m : list N), len m = 32 -> wdec k (wenc k m) = m) ->
+  (forall e : bytes, len (pubk e) = 32) ->
+  (forall (k : bytes) (m : list N), len m = 32 -> len (wenc k m) = 32) ->
+  (forall k c : bytes, len (wtag k c) = 16) ->
+  forall (cfg : wconfig) (ct cm : list N) (files : list (bytes * bytes)) (sf : wstate) (rs : list (res N))
+  (privs : list bytes) (s : bytes),
+  made_by_create CHUNK TAG BLOCK LIMIT FNMAX TS TC TA TE H order pubk dh kdf wenc wtag ksf tagf dec cfg files sf rs privs s ->
+  exists a : bytes,
+  cmd_create CHUNK CIPHERBUF BLOCK LIMIT FNMAX TS TC TA TE H order pubk dh kdf wenc wtag ksf tagf cfg ct cm files =
+  {| cr_ok := true; cr_out := OWritten a; cr_stdout := [] |} /\
+  (TagCollision pubk dh kdf wenc wtag (wc_eph cfg) (wc_key cfg) (wc_recipients cfg) privs \/
+  cmd_list_verbose_a CHUNK TAG BLOCK LIMIT FNMAX TS TC TA TE dh kdf wdec wtag ksf tagf dec a privs =
+  (map (fun f : bytes * list N => (fst f, len (snd f), H (snd f))) (sorted_files files), true)).
+Proof. exact list_verbose_true. Qed.
+
+(* cat of ANY argument list: the files' exact bytes in argument order, to the output file or to stdout, exit status 0;
+   a name the archive lacks contributes nothing *)
+Theorem C17_cat_returns_bytes :
+  forall (CHUNK TAG CIPHERBUF BLOCK LIMIT FNMAX TS TC TA TE : N) (H : bytes -> bytes) (order : footer -> footer)
+  (pubk : bytes -> bytes) (dh : bytes -> bytes -> bytes) (kdf : bytes -> bytes) (wenc wdec wtag : bytes -> bytes -> bytes)
+  (ksf : bytes -> bytes -> N -> N -> N) (tagf : bytes -> bytes -> N -> bytes -> bytes) (dec : bytes -> bytes),
+  0 < CHUNK ->
+  0 < TAG ->
+  0 < CIPHERBUF ->
+  0 < BLOCK ->
+  BLOCK < 2 ^ 32 ->
+  tags_distinct TS TC TA TE ->
+  (forall x : bytes, len (H x) = 32) ->
+  (forall f : footer, Permutation (order f) f) ->
+  (forall (k : bytes) (m : list N), len m = 32 -> wdec k (wenc k m) = m) ->
+  (forall e : bytes, len (pubk e) = 32) ->
+  (forall (k : bytes) (m : list N), len m = 32 -> len (wenc k m) = 32) ->
+  (forall k c : bytes, len (wtag k c) = 16) ->
+  forall (cfg : wconfig) (ct cm : list N) (files : list (bytes * bytes)) (sf : wstate) (rs : list (res N))
+  (privs : list bytes) (s : bytes),
+  made_by_create CHUNK TAG BLOCK LIMIT FNMAX TS TC TA TE H order pubk dh kdf wenc wtag ksf tagf dec cfg files sf rs privs s ->
+  forall zf fuel : nat,
+  (forall n d : bytes, In (n, d) files -> (length d < fuel)%nat) ->
+  exists a : bytes,
+  cmd_create CHUNK CIPHERBUF BLOCK LIMIT FNMAX TS TC TA TE H order pubk dh kdf wenc wtag ksf tagf cfg ct cm files =
+  {| cr_ok := true; cr_out := OWritten a; cr_stdout := [] |} /\
+  (TagCollision pubk dh kdf wenc wtag (wc_eph cfg) (wc_key cfg) (wc_recipients cfg) privs \/
+  (forall (to_file : bool) (names : list bytes),
+  cmd_cat CHUNK TAG BLOCK LIMIT FNMAX TS TC TA TE dh kdf wdec wtag ksf tagf dec to_file zf fuel a privs names =
+  (let d := concat (map (lookup_file files) names) in
+  if to_file
+  then {| cr_ok := true; cr_out := OWritten d; cr_stdout := [] |}
+  else {| cr_ok := true; cr_out := OUntouched; cr_stdout := d |}))).
+Proof. exact cat_returns_bytes. Qed.
+
+(* in particular: cat of a name that does not exist writes nothing and STILL exits 0 (reported to the integrator) *)
+Theorem C17_cat_missing_name_exit0 :
+  forall (CHUNK TAG CIPHERBUF BLOCK LIMIT FNMAX TS TC TA TE : N) (H : bytes -> bytes) (order : footer -> footer)
+  (pubk : bytes -> bytes) (dh : bytes -> bytes -> bytes) (kdf : bytes -> bytes) (wenc wdec wtag : bytes -> bytes -> bytes)
+  (ksf : bytes -> bytes -> N -> N -> N) (tagf : bytes -> bytes -> N -> bytes -> bytes) (dec : bytes -> bytes),
+  0 < CHUNK ->
+  0 < TAG ->
+  0 < CIPHERBUF ->
+  0 < BLOCK ->
+  BLOCK < 2 ^ 32 ->
+  tags_distinct TS TC TA TE ->
+  (forall x : bytes, len (H x) = 32) ->
+  (forall f : footer, Permutation (order f) f) ->
+  (forall (k : bytes) (m : list N), len m = 32 -> wdec k (wenc k m) = m) ->
+  (forall e : bytes, len (pubk e) = 32) ->
+  (forall (k : bytes) (m : list N), len m = 32 -> len (wenc k m) = 32) ->
+  (forall k c : bytes, len (wtag k c) = 16) ->
+  forall (cfg : wconfig) (ct cm : list N) (files : list (bytes * bytes)) (sf : wstate) (rs : list (res N))
+  (privs : list bytes) (s : bytes),
+  made_by_create CHUNK TAG BLOCK LIMIT FNMAX TS TC TA TE H order pubk dh kdf wenc wtag ksf tagf dec cfg files sf rs privs s ->
+  forall zf fuel : nat,
+  (forall n d : bytes, In (n, d) files -> (length d < fuel)%nat) ->
+  forall n : bytes,
+  ~ In n (map fst files) ->
+  exists a : bytes,
+  cmd_create CHUNK CIPHERBUF BLOCK LIMIT FNMAX TS TC TA TE H order pubk dh kdf wenc wtag ksf tagf cfg ct cm files =
+  {| cr_ok := true; cr_out := OWritten a; cr_stdout := [] |} /\
+  (TagCollision pubk dh kdf wenc wtag (wc_eph cfg) (wc_key cfg) (wc_recipients cfg) privs \/
+  cmd_cat CHUNK TAG BLOCK LIMIT FNMAX TS TC TA TE dh kdf wdec wtag ksf tagf dec false zf fuel a privs [n] =
+  {| cr_ok := true; cr_out := OUntouched; cr_stdout := [] |}).
+Proof. exact cat_missing_name_exit0. Qed.
+
+(* to-tar writes exactly Tar.tar_of of the name-sorted files (header bytes of the tar crate 0.4.44, GNU long-name members,
+   padding, the 1024 zero bytes written when the Builder is dropped) *)
+Theorem C17_to_tar_is_tar_of :
+  forall (CHUNK TAG CIPHERBUF BLOCK LIMIT FNMAX TS TC TA TE : N) (H : bytes -> bytes) (order : footer -> footer)
+  (pubk : bytes -> bytes) (dh : bytes -> bytes -> bytes) (kdf : bytes -> bytes) (wenc wdec wtag : bytes -> bytes -> bytes)
+  (ksf : bytes -> bytes -> N -> N -> N) (tagf : bytes -> bytes -> N -> bytes -> bytes) (dec : bytes -> bytes),
+  0 < CHUNK ->
+  0 < TAG ->
+  0 < CIPHERBUF ->
+  0 < BLOCK ->
+  BLOCK < 2 ^ 32 ->
+  tags_distinct TS TC TA TE ->
+  (forall x : bytes, len (H x) = 32) ->
+  (forall f : footer, Permutation (order f) f) ->
+  (forall (k : bytes) (m : list N), len m = 32 -> wdec k (wenc k m) = m) ->
+  (forall e : bytes, len (pubk e) = 32) ->
+  (forall (k : bytes) (m : list N), len m = 32 -> len (wenc k m) = 32) ->
+  (forall k c : bytes, len (wtag k c) = 16) ->
+  forall (cfg : wconfig) (ct cm : list N) (files : list (bytes * bytes)) (sf : wstate) (rs : list (res N))
+  (privs : list bytes) (s : bytes),
+  made_by_create CHUNK TAG BLOCK LIMIT FNMAX TS TC TA TE H order pubk dh kdf wenc wtag ksf tagf dec cfg files sf rs privs s ->
+  forall zf fuel : nat,
+  (forall n d : bytes, In (n, d) files -> (length d < fuel)%nat) ->
+  exists a : bytes,
+  cmd_create CHUNK CIPHERBUF BLOCK LIMIT FNMAX TS TC TA TE H order pubk dh kdf wenc wtag ksf tagf cfg ct cm files =
+  {| cr_ok := true; cr_out := OWritten a; cr_stdout := [] |} /\
+  (TagCollision pubk dh kdf wenc wtag (wc_eph cfg) (wc_key cfg) (wc_recipients cfg) privs \/
+  cmd_to_tar CHUNK TAG BLOCK LIMIT FNMAX TS TC TA TE dh kdf wdec wtag ksf tagf dec zf fuel a privs =
+  {| cr_ok := true; cr_out := OWritten (tar_of (sorted_files files)); cr_stdout := [] |}).
+Proof. exact to_tar_is_tar_of. Qed.
+
+(* and an independent tar reader (Tar.tar_read: ustar layout, octal / base-256 sizes, checksum verified, 'L' members) reads
+   that back as exactly the (tar name, bytes) list, for members whose path the tar crate accepts (member_ok) *)
+Theorem C17_tar_reader_reads_tar_of :
+  forall ms : list (bytes * bytes),
+  Forall member_ok ms ->
+  forall fuel : nat,
+  (2 * length ms < fuel)%nat ->
+  tar_read fuel (tar_of ms) None = Some (map (fun m : bytes * bytes => (tar_name (fst m), snd m)) ms).
+Proof. exact tar_read_tar_of. Qed.
+
+(* the tar name of a name made of plain components (no empty / . / .. component, no NUL), at most 100 bytes, is the name itself *)
+Theorem C17_tar_name_benign :
+  forall (cs : list bytes) (name : bytes),
+  cs <> [] ->
+  Forall benign_comp cs ->
+  name = join SEP cs ->
+  len name <= 100 -> prepare_path (tar_path name) = ([], Some (name ++ zeros (100 - len name))) /\ tar_name name = name.
+Proof. exact tar_name_benign. Qed.
+
+(* and such members are accepted *)
+Theorem C17_member_ok_benign :
+  forall (cs : list bytes) (name : bytes) (data : list N),
+  cs <> [] ->
+  Forall benign_comp cs ->
+  Forall wf_bytes cs -> name = join SEP cs -> len name <= 100 -> len data < 2 ^ 64 -> member_ok (name, data).
+Proof. exact member_ok_benign. Qed.
+
+(* convert to ANY configuration (layers, level, recipients) has the output and exit status of create of the same files in name order *)
+Theorem C17_convert_is_create :
+  forall (CHUNK TAG CIPHERBUF BLOCK LIMIT FNMAX TS TC TA TE : N) (H : bytes -> bytes) (order : footer -> footer)
+  (pubk : bytes -> bytes) (dh : bytes -> bytes -> bytes) (kdf : bytes -> bytes) (wenc wdec wtag : bytes -> bytes -> bytes)
+  (ksf : bytes -> bytes -> N -> N -> N) (tagf : bytes -> bytes -> N -> bytes -> bytes) (dec : bytes -> bytes),
+  0 < CHUNK ->
+  0 < TAG ->
+  0 < CIPHERBUF ->
+  0 < BLOCK ->
+  BLOCK < 2 ^ 32 ->
+  tags_distinct TS TC TA TE ->
+  (forall x : bytes, len (H x) = 32) ->
+  (forall f : footer, Permutation (order f) f) ->
+  (forall (k : bytes) (m : list N), len m = 32 -> wdec k (wenc k m) = m) ->
+  (forall e : bytes, len (pubk e) = 32) ->
+  (forall (k : bytes) (m : list N), len m = 32 -> len (wenc k m) = 32) ->
+  (forall k c : bytes, len (wtag k c) = 16) ->
+  forall (cfg : wconfig) (ct cm : list N) (files : list (bytes * bytes)) (sf : wstate) (rs : list (res N))
+  (privs : list bytes) (s : bytes),
+  made_by_create CHUNK TAG BLOCK LIMIT FNMAX TS TC TA TE H order pubk dh kdf wenc wtag ksf tagf dec cfg files sf rs privs s ->
+  forall zf fuel : nat,
+  (forall n d : bytes, In (n, d) files -> (length d < fuel)%nat) ->
+  exists a : bytes,
+  cmd_create CHUNK CIPHERBUF BLOCK LIMIT FNMAX TS TC TA TE H order pubk dh kdf wenc wtag ksf tagf cfg ct cm files =
+  {| cr_ok := true; cr_out := OWritten a; cr_stdout := [] |} /\
+  (TagCollision pubk dh kdf wenc wtag (wc_eph cfg) (wc_key cfg) (wc_recipients cfg) privs \/
+  (forall (cfg' : wconfig) (ct' cm' : list N),
+  cmd_convert CHUNK TAG CIPHERBUF BLOCK LIMIT FNMAX TS TC TA TE H order pubk dh kdf wenc wdec wtag ksf tagf dec zf fuel
+  a privs cfg' ct' cm' =
+  cmd_create CHUNK CIPHERBUF BLOCK LIMIT FNMAX TS TC TA TE H order pubk dh kdf wenc wtag ksf tagf cfg' ct' cm'
+  (sorted_files files))).
+Proof. exact convert_is_create. Qed.
+
+(* hence: the converted archive, opened with a key of a TARGET recipient, lists the same names and cat returns the same bytes *)
+Theorem C17_convert_preserves_files :
+  forall (CHUNK TAG CIPHERBUF BLOCK LIMIT FNMAX TS TC TA TE : N) (H : bytes -> bytes) (order : footer -> footer)
+  (pubk : bytes -> bytes) (dh : bytes -> bytes -> bytes) (kdf : bytes -> bytes) (wenc wdec wtag : bytes -> bytes -> bytes)
+  (ksf : bytes -> bytes -> N -> N -> N) (tagf : bytes -> bytes -> N -> bytes -> bytes) (dec : bytes -> bytes),
+  0 < CHUNK ->
+  0 < TAG ->
+  0 < CIPHERBUF ->
+  0 < BLOCK ->
+  BLOCK < 2 ^ 32 ->
+  tags_distinct TS TC TA TE ->
+  (forall x : bytes, len (H x) = 32) ->
+  (forall f : footer, Permutation (order f) f) ->
+  (forall (k : bytes) (m : list N), len m = 32 -> wdec k (wenc k m) = m) ->
+  (forall e : bytes, len (pubk e) = 32) ->
+  (forall (k : bytes) (m : list N), len m = 32 -> len (wenc k m) = 32) ->
+  (forall k c : bytes, len (wtag k c) = 16) ->
+  forall (cfg : wconfig) (ct cm : list N) (files : list (bytes * bytes)) (sf : wstate) (rs : list (res N))
+  (privs : list bytes) (s : bytes) (cfg' : wconfig) (ct' cm' : list N) (sf' : wstate) (rs' : list (res N))
+  (privs' : list bytes) (s' : bytes) (zf fuel : nat),
+  made_by_create CHUNK TAG BLOCK LIMIT FNMAX TS TC TA TE H order pubk dh kdf wenc wtag ksf tagf dec cfg files sf rs privs s ->
+  made_by_create CHUNK TAG BLOCK LIMIT FNMAX TS TC TA TE H order pubk dh kdf wenc wtag ksf tagf dec cfg'
+  (sorted_files files) sf' rs' privs' s' ->
+  (forall n d : bytes, In (n, d) files -> (length d < fuel)%nat) ->
+  exists a : bytes,
+  cmd_create CHUNK CIPHERBUF BLOCK LIMIT FNMAX TS TC TA TE H order pubk dh kdf wenc wtag ksf tagf cfg ct cm files =
+  {| cr_ok := true; cr_out := OWritten a; cr_stdout := [] |} /\
+  (TagCollision pubk dh kdf wenc wtag (wc_eph cfg) (wc_key cfg) (wc_recipients cfg) privs \/
+  (exists b : bytes,
+  cmd_convert CHUNK TAG CIPHERBUF BLOCK LIMIT FNMAX TS TC TA TE H order pubk dh kdf wenc wdec wtag ksf tagf dec zf
+  fuel a privs cfg' ct' cm' = {| cr_ok := true; cr_out := OWritten b; cr_stdout := [] |} /\
+  (TagCollision pubk dh kdf wenc wtag (wc_eph cfg') (wc_key cfg') (wc_recipients cfg') privs' \/
+  cmd_list_a CHUNK TAG BLOCK LIMIT dh kdf wdec wtag ksf tagf dec b privs' =
+  {|
+  cr_ok := true;
+  cr_out := OUntouched;
+  cr_stdout := flat_map (fun n : list N => n ++ [NL]) (sort_names (map fst files))
+  |} /\
+  (forall names : list bytes,
+  cmd_cat CHUNK TAG BLOCK LIMIT FNMAX TS TC TA TE dh kdf wdec wtag ksf tagf dec false zf fuel b privs' names =
+  {| cr_ok := true; cr_out := OUntouched; cr_stdout := concat (map (lookup_file files) names) |})))).
+Proof. exact convert_preserves_files. Qed.
+
+(* both forms of extract (whole archive = linear_extract + FileWriters, C12; with file arguments = get_file + io::copy per name)
+   on any file system where the names are benign and their way is clear (C16): both succeed and every given file reads back
+   with exactly its bytes at out/name in BOTH resulting file systems *)
+Theorem C17_extract_both_forms_agree :
+  forall (CHUNK TAG CIPHERBUF BLOCK LIMIT FNMAX TS TC TA TE : N) (H : bytes -> bytes) (order : footer -> footer)
+  (pubk : bytes -> bytes) (dh : bytes -> bytes -> bytes) (kdf : bytes -> bytes) (wenc wdec wtag : bytes -> bytes -> bytes)
+  (ksf : bytes -> bytes -> N -> N -> N) (tagf : bytes -> bytes -> N -> bytes -> bytes) (dec : bytes -> bytes),
+  0 < CHUNK ->
+  0 < TAG ->
+  0 < CIPHERBUF ->
+  0 < BLOCK ->
+  BLOCK < 2 ^ 32 ->
+  tags_distinct TS TC TA TE ->
+  (forall x : bytes, len (H x) = 32) ->
+  (forall f : footer, Permutation (order f) f) ->
+  (forall (k : bytes) (m : list N), len m = 32 -> wdec k (wenc k m) = m) ->
+  (forall e : bytes, len (pubk e) = 32) ->
+  (forall (k : bytes) (m : list N), len m = 32 -> len (wenc k m) = 32) ->
+  (forall k c : bytes, len (wtag k c) = 16) ->
+  forall (cfg : wconfig) (ct cm : list N) (files : list (bytes * bytes)) (sf : wstate) (rs : list (res N))
+  (privs : list bytes) (s : bytes) (zf fuel lfuel : nat) (wanted : list bytes) (out : path) (f : fs),
+  made_by_create CHUNK TAG BLOCK LIMIT FNMAX TS TC TA TE H order pubk dh kdf wenc wtag ksf tagf dec cfg files sf rs privs s ->
+  (forall n d : bytes, In (n, d) files -> (length d < fuel)%nat) ->
+  (N.to_nat (len (w_out sf)) < lfuel)%nat ->
+  (forall n : bytes, In n (map fst files) -> name_in wanted n = true) ->
+  let ns := sort_names (map fst files) in
+  real_dir f out ->
+  Forall (fun n : bytes => benign out (n, [])) ns ->
+  pairwise unrelated (map norm ns) ->
+  Forall (fun n : bytes => clear_path out f (norm n)) ns ->
+  exists a : bytes,
+  cmd_create CHUNK CIPHERBUF BLOCK LIMIT FNMAX TS TC TA TE H order pubk dh kdf wenc wtag ksf tagf cfg ct cm files =
+  {| cr_ok := true; cr_out := OWritten a; cr_stdout := [] |} /\
+  (TagCollision pubk dh kdf wenc wtag (wc_eph cfg) (wc_key cfg) (wc_recipients cfg) privs \/
+  (exists f1 f2 : fs,
+  cmd_extract_listed CHUNK TAG BLOCK LIMIT FNMAX TS TC TA TE dh kdf wdec wtag ksf tagf dec zf fuel a privs wanted out
+  f = (f1, true) /\
+  cmd_extract_linear CHUNK TAG BLOCK LIMIT FNMAX TS TC TA TE dh kdf wdec wtag ksf tagf dec lfuel a privs out f =
+  (f2, true) /\
+  (forall n d : bytes,
+  In (n, d) files -> read_file f1 (out ++ norm n) = Some d /\ read_file f2 (out ++ norm n) = Some d))).
+Proof. exact extract_both_forms_agree. Qed.
+
+(* a failing open_mla_file, per command: to-tar / convert never open their output path, extract leaves the file system as it
+   was, list prints nothing; `cat -o FILE` has ALREADY created (truncated) FILE — it holds no content; all exit non-zero *)
+Theorem C17_failed_open_leaves_no_output :
+  forall (CHUNK TAG CIPHERBUF BLOCK LIMIT FNMAX TS TC TA TE : N) (H : bytes -> bytes) (order : footer -> footer)
+  (pubk : bytes -> bytes) (dh : bytes -> bytes -> bytes) (kdf : bytes -> bytes) (wenc wdec wtag : bytes -> bytes -> bytes)
+  (ksf : bytes -> bytes -> N -> N -> N) (tagf : bytes -> bytes -> N -> bytes -> bytes) (dec : bytes -> bytes)
+  (a : bytes) (privs : list bytes),
+  open_fails CHUNK TAG BLOCK LIMIT dh kdf wdec wtag ksf tagf dec a privs ->
+  (forall zf fuel : nat,
+  cmd_to_tar CHUNK TAG BLOCK LIMIT FNMAX TS TC TA TE dh kdf wdec wtag ksf tagf dec zf fuel a privs =
+  {| cr_ok := false; cr_out := OUntouched; cr_stdout := [] |}) /\
+  (forall (zf fuel : nat) (cfg' : wconfig) (ct' cm' : list N),
+  cmd_convert CHUNK TAG CIPHERBUF BLOCK LIMIT FNMAX TS TC TA TE H order pubk dh kdf wenc wdec wtag ksf tagf dec zf fuel a
+  privs cfg' ct' cm' = {| cr_ok := false; cr_out := OUntouched; cr_stdout := [] |}) /\
+  (forall (lfuel : nat) (out : path) (f : fs),
+  cmd_extract_linear CHUNK TAG BLOCK LIMIT FNMAX TS TC TA TE dh kdf wdec wtag ksf tagf dec lfuel a privs out f = (f, false)) /\
+  (forall (zf fuel : nat) (wanted : list bytes) (out : path) (f : fs),
+  cmd_extract_listed CHUNK TAG BLOCK LIMIT FNMAX TS TC TA TE dh kdf wdec wtag ksf tagf dec zf fuel a privs wanted out f =
+  (f, false)) /\
+  cmd_list_a CHUNK TAG BLOCK LIMIT dh kdf wdec wtag ksf tagf dec a privs =
+  {| cr_ok := false; cr_out := OUntouched; cr_stdout := [] |} /\
+  cmd_list_verbose_a CHUNK TAG BLOCK LIMIT FNMAX TS TC TA TE dh kdf wdec wtag ksf tagf dec a privs = ([], false) /\
+  (forall (zf fuel : nat) (names : list bytes),
+  cmd_cat CHUNK TAG BLOCK LIMIT FNMAX TS TC TA TE dh kdf wdec wtag ksf tagf dec true zf fuel a privs names =
+  {| cr_ok := false; cr_out := OWritten []; cr_stdout := [] |}) /\
+  (forall (zf fuel : nat) (names : list bytes),
+  cmd_cat CHUNK TAG BLOCK LIMIT FNMAX TS TC TA TE dh kdf wdec wtag ksf tagf dec false zf fuel a privs names =
+  {| cr_ok := false; cr_out := OUntouched; cr_stdout := [] |}).
+Proof. exact failed_open_leaves_no_output. Qed.
+
+(* when the open fails, on an archive made by create: a key given for an archive without encryption *)
+Theorem C17_key_for_unencrypted_fails :
+  forall (CHUNK TAG CIPHERBUF BLOCK LIMIT FNMAX TS TC TA TE : N) (H : bytes -> bytes) (order : footer -> footer)
+  (pubk : bytes -> bytes) (dh : bytes -> bytes -> bytes) (kdf : bytes -> bytes) (wenc wdec wtag : bytes -> bytes -> bytes)
+  (ksf : bytes -> bytes -> N -> N -> N) (tagf : bytes -> bytes -> N -> bytes -> bytes) (dec : bytes -> bytes),
+  0 < CHUNK ->
+  0 < TAG ->
+  0 < CIPHERBUF ->
+  0 < BLOCK ->
+  BLOCK < 2 ^ 32 ->
+  (forall x : bytes, len (H x) = 32) ->
+  (forall f : footer, Permutation (order f) f) ->
+  (forall (k : bytes) (m : list N), len m = 32 -> wdec k (wenc k m) = m) ->
+  (forall e : bytes, len (pubk e) = 32) ->
+  (forall (k : bytes) (m : list N), len m = 32 -> len (wenc k m) = 32) ->
+  (forall k c : bytes, len (wtag k c) = 16) ->
+  forall (cfg : wconfig) (ct cm : list N) (files : list (bytes * bytes)) (sf : wstate) (rs : list (res N))
+  (s : bytes) (privs : list bytes),
+  made_by_create CHUNK TAG BLOCK LIMIT FNMAX TS TC TA TE H order pubk dh kdf wenc wtag ksf tagf dec cfg files sf rs [] s ->
+  wc_encrypt cfg = false ->
+  privs <> [] ->
+  exists a : bytes,
+  archive_write CHUNK CIPHERBUF BLOCK LIMIT FNMAX TS TC TA TE H order pubk dh kdf wenc wtag ksf tagf cfg ct cm
+  (create_ops files) = Ok a /\ open_fails CHUNK TAG BLOCK LIMIT dh kdf wdec wtag ksf tagf dec a privs.
+Proof. exact key_for_unencrypted_fails. Qed.
+
+(* no key for an encrypted archive *)
+Theorem C17_missing_key_fails_cli :
+  forall (CHUNK TAG CIPHERBUF BLOCK LIMIT FNMAX TS TC TA TE : N) (H : bytes -> bytes) (order : footer -> footer)
+  (pubk : bytes -> bytes) (dh : bytes -> bytes -> bytes) (kdf : bytes -> bytes) (wenc wdec wtag : bytes -> bytes -> bytes)
+  (ksf : bytes -> bytes -> N -> N -> N) (tagf : bytes -> bytes -> N -> bytes -> bytes) (dec : bytes -> bytes),
+  0 < CHUNK ->
+  0 < TAG ->
+  0 < CIPHERBUF ->
+  0 < BLOCK ->
+  BLOCK < 2 ^ 32 ->
+  (forall x : bytes, len (H x) = 32) ->
+  (forall f : footer, Permutation (order f) f) ->
+  (forall (k : bytes) (m : list N), len m = 32 -> wdec k (wenc k m) = m) ->
+  (forall e : bytes, len (pubk e) = 32) ->
+  (forall (k : bytes) (m : list N), len m = 32 -> len (wenc k m) = 32) ->
+  (forall k c : bytes, len (wtag k c) = 16) ->
+  forall (cfg : wconfig) (ct cm : list N) (files : list (bytes * bytes)) (sf : wstate) (rs : list (res N))
+  (s : bytes) (privs0 : list bytes),
+  made_by_create CHUNK TAG BLOCK LIMIT FNMAX TS TC TA TE H order pubk dh kdf wenc wtag ksf tagf dec cfg files sf rs privs0 s ->
+  wc_encrypt cfg = true ->
+  exists a : bytes,
+  archive_write CHUNK CIPHERBUF BLOCK LIMIT FNMAX TS TC TA TE H order pubk dh kdf wenc wtag ksf tagf cfg ct cm
+  (create_ops files) = Ok a /\ open_fails CHUNK TAG BLOCK LIMIT dh kdf wdec wtag ksf tagf dec a [].
+Proof. exact missing_key_fails. Qed.
+
+(* candidate keys none of which unwraps the archive key *)
+Theorem C17_wrong_key_fails_cli :
+  forall (CHUNK TAG CIPHERBUF BLOCK LIMIT FNMAX TS TC TA TE : N) (H : bytes -> bytes) (order : footer -> footer)
+  (pubk : bytes -> bytes) (dh : bytes -> bytes -> bytes) (kdf : bytes -> bytes) (wenc wdec wtag : bytes -> bytes -> bytes)
+  (ksf : bytes -> bytes -> N -> N -> N) (tagf : bytes -> bytes -> N -> bytes -> bytes) (dec : bytes -> bytes),
+  0 < CHUNK ->
+  0 < TAG ->
+  0 < CIPHERBUF ->
+  0 < BLOCK ->
+  BLOCK < 2 ^ 32 ->
+  (forall x : bytes, len (H x) = 32) ->
+  (forall f : footer, Permutation (order f) f) ->
+  (forall (k : bytes) (m : list N), len m = 32 -> wdec k (wenc k m) = m) ->
+  (forall e : bytes, len (pubk e) = 32) ->
+  (forall (k : bytes) (m : list N), len m = 32 -> len (wenc k m) = 32) ->
+  (forall k c : bytes, len (wtag k c) = 16) ->
+  forall (cfg : wconfig) (ct cm : list N) (files : list (bytes * bytes)) (sf : wstate) (rs : list (res N))
+  (s : bytes) (privs0 privs : list bytes),
+  made_by_create CHUNK TAG BLOCK LIMIT FNMAX TS TC TA TE H order pubk dh kdf wenc wtag ksf tagf dec cfg files sf rs privs0 s ->
+  wc_encrypt cfg = true ->
+  load_persistent dh kdf wdec wtag (store_key pubk dh kdf wenc wtag (wc_recipients cfg) (wc_key cfg) (wc_eph cfg)) privs =
+  None ->
+  exists a : bytes,
+  archive_write CHUNK CIPHERBUF BLOCK LIMIT FNMAX TS TC TA TE H order pubk dh kdf wenc wtag ksf tagf cfg ct cm
+  (create_ops files) = Ok a /\ open_fails CHUNK TAG BLOCK LIMIT dh kdf wdec wtag ksf tagf dec a privs.
+Proof. exact wrong_key_fails. Qed.
+
+(* repair: a failing open_failsafe_mla_file leaves the output path unopened *)
+Theorem C17_repair_failed_open_leaves_no_output :
+  forall (CHUNK TAG CIPHERBUF BLOCK LIMIT FNMAX CACHE FSBUF TS TC TA TE : N) (H pubk : bytes -> bytes)
+  (dh : bytes -> bytes -> bytes) (kdf : bytes -> bytes) (wenc wdec wtag : bytes -> bytes -> bytes)
+  (ksf : bytes -> bytes -> N -> N -> N) (tagf : bytes -> bytes -> N -> bytes -> bytes) (dstate : Type)
+  (dinit : dstate) (dstep : dstate -> bytes -> N -> dresult * N * bytes * dstate) (pfuel : nat)
+  (a : bytes) (privs : list bytes),
+  (forall x : bool * bool * bytes * bytes * bytes, repair_open LIMIT dh kdf wdec wtag a privs <> Ok x) ->
+  forall (unauth : bool) (fuel : nat) (cfg' : wconfig) (ct cm : list N),
+  cmd_repair CHUNK TAG CIPHERBUF BLOCK LIMIT FNMAX CACHE FSBUF TS TC TA TE H pubk dh kdf wenc wdec wtag ksf tagf dstate
+  dinit dstep pfuel unauth fuel a privs cfg' ct cm = ({| cr_ok := false; cr_out := OUntouched; cr_stdout := [] |}, None).
+Proof. exact repair_failed_open_leaves_no_output. Qed.
+
+(* repair without key on an encrypted archive fails so *)
+Theorem C17_repair_missing_key_fails :
+  forall (CHUNK TAG CIPHERBUF BLOCK LIMIT FNMAX TS TC TA TE : N) (H : bytes -> bytes) (order : footer -> footer)
+  (pubk : bytes -> bytes) (dh : bytes -> bytes -> bytes) (kdf : bytes -> bytes) (wenc wdec wtag : bytes -> bytes -> bytes)
+  (ksf : bytes -> bytes -> N -> N -> N) (tagf : bytes -> bytes -> N -> bytes -> bytes) (dec : bytes -> bytes),
+  0 < CHUNK ->
+  0 < TAG ->
+  0 < CIPHERBUF ->
+  0 < BLOCK ->
+  BLOCK < 2 ^ 32 ->
+  (forall x : bytes, len (H x) = 32) ->
+  (forall f : footer, Permutation (order f) f) ->
+  (forall (k : bytes) (m : list N), len m = 32 -> wdec k (wenc k m) = m) ->
+  (forall e : bytes, len (pubk e) = 32) ->
+  (forall (k : bytes) (m : list N), len m = 32 -> len (wenc k m) = 32) ->
+  (forall k c : bytes, len (wtag k c) = 16) ->
+  forall (cfg : wconfig) (ct cm : list N) (files : list (bytes * bytes)) (sf : wstate) (rs : list (res N))
+  (s : bytes) (privs0 : list bytes),
+  made_by_create CHUNK TAG BLOCK LIMIT FNMAX TS TC TA TE H order pubk dh kdf wenc wtag ksf tagf dec cfg files sf rs privs0 s ->
+  wc_encrypt cfg = true ->
+  exists a : bytes,
+  archive_write CHUNK CIPHERBUF BLOCK LIMIT FNMAX TS TC TA TE H order pubk dh kdf wenc wtag ksf tagf cfg ct cm
+  (create_ops files) = Ok a /\
+  (forall x : bool * bool * bytes * bytes * bytes, repair_open LIMIT dh kdf wdec wtag a [] <> Ok x).
+Proof. exact repair_missing_key_fails. Qed.
+
+(* repair (since repair 9ea79db): a key given for an archive without encryption is refused by open_failsafe_mla_file like by
+   open_mla_file: non-zero exit status, the output path is never opened *)
+Theorem C17_repair_key_for_unencrypted_fails :
+  forall (CHUNK TAG CIPHERBUF BLOCK LIMIT FNMAX CACHE FSBUF TS TC TA TE : N) (H : bytes -> bytes) 
+  (order : footer -> footer) (pubk : bytes -> bytes) (dh : bytes -> bytes -> bytes) (kdf : bytes -> bytes)
+  (wenc wdec wtag : bytes -> bytes -> bytes) (ksf : bytes -> bytes -> N -> N -> N)
+  (tagf : bytes -> bytes -> N -> bytes -> bytes) (dec : bytes -> bytes) (dstate : Type) (dinit : dstate)
+  (dstep : dstate -> bytes -> N -> dresult * N * bytes * dstate) (pfuel : nat),
+  0 < CHUNK ->
+  0 < TAG ->
+  0 < CIPHERBUF ->
+  0 < BLOCK ->
+  BLOCK < 2 ^ 32 ->
+  (forall x : bytes, len (H x) = 32) ->
+  (forall f : footer, Permutation (order f) f) ->
+  (forall (k : bytes) (m : list N), len m = 32 -> wdec k (wenc k m) = m) ->
+  (forall e : bytes, len (pubk e) = 32) ->
+  (forall (k : bytes) (m : list N), len m = 32 -> len (wenc k m) = 32) ->
+  (forall k c : bytes, len (wtag k c) = 16) ->
+  forall (cfg : wconfig) (ct cm : list N) (files : list (bytes * bytes)) (sf : wstate) (rs : list (res N)) (s : bytes),
+  made_by_create CHUNK TAG BLOCK LIMIT FNMAX TS TC TA TE H order pubk dh kdf wenc wtag ksf tagf dec cfg files sf rs [] s ->
+  wc_encrypt cfg = false ->
+  exists a : bytes,
+  archive_write CHUNK CIPHERBUF BLOCK LIMIT FNMAX TS TC TA TE H order pubk dh kdf wenc wtag ksf tagf cfg ct cm
+  (create_ops files) = Ok a /\
+  (forall privs : list bytes,
+  privs <> [] ->
+  (forall x : bool * bool * bytes * bytes * bytes, repair_open LIMIT dh kdf wdec wtag a privs <> Ok x) /\
+  (forall (unauth : bool) (fuel : nat) (cfg' : wconfig) (ct' cm' : list N),
+  cmd_repair CHUNK TAG CIPHERBUF BLOCK LIMIT FNMAX CACHE FSBUF TS TC TA TE H pubk dh kdf wenc wdec wtag ksf tagf dstate
+  dinit dstep pfuel unauth fuel a privs cfg' ct' cm' =
+  ({| cr_ok := false; cr_out := OUntouched; cr_stdout := [] |}, None))).
+Proof. exact repair_key_for_unencrypted_fails. Qed.
+
+(* THE OLD CODE refuted (CliRepair.repair_open_old / cmd_repair_old = open_failsafe_mla_file before 9ea79db): it had no such check and
+   load_persistent overwrote the expectation; the old command behaved exactly as without key (exit 0 on an intact archive) *)
+Theorem C17_repair_key_old_code_refuted :
+  forall (CHUNK TAG CIPHERBUF BLOCK LIMIT FNMAX CACHE FSBUF TS TC TA TE : N) (H : bytes -> bytes) 
+  (order : footer -> footer) (pubk : bytes -> bytes) (dh : bytes -> bytes -> bytes) (kdf : bytes -> bytes)
+  (wenc wdec wtag : bytes -> bytes -> bytes) (ksf : bytes -> bytes -> N -> N -> N)
+  (tagf : bytes -> bytes -> N -> bytes -> bytes) (dec : bytes -> bytes) (dstate : Type) (dinit : dstate)
+  (dstep : dstate -> bytes -> N -> dresult * N * bytes * dstate) (pfuel : nat),
+  0 < CHUNK ->
+  0 < TAG ->
+  0 < CIPHERBUF ->
+  0 < BLOCK ->
+  BLOCK < 2 ^ 32 ->
+  (forall x : bytes, len (H x) = 32) ->
+  (forall f : footer, Permutation (order f) f) ->
+  (forall (k : bytes) (m : list N), len m = 32 -> wdec k (wenc k m) = m) ->
+  (forall e : bytes, len (pubk e) = 32) ->
+  (forall (k : bytes) (m : list N), len m = 32 -> len (wenc k m) = 32) ->
+  (forall k c : bytes, len (wtag k c) = 16) ->
+  forall (cfg : wconfig) (ct cm : list N) (files : list (bytes * bytes)) (sf : wstate) (rs : list (res N)) (s : bytes),
+  made_by_create CHUNK TAG BLOCK LIMIT FNMAX TS TC TA TE H order pubk dh kdf wenc wtag ksf tagf dec cfg files sf rs [] s ->
+  wc_encrypt cfg = false ->
+  exists a : bytes,
+  archive_write CHUNK CIPHERBUF BLOCK LIMIT FNMAX TS TC TA TE H order pubk dh kdf wenc wtag ksf tagf cfg ct cm
+  (create_ops files) = Ok a /\
+  (forall privs : list bytes,
+  repair_open_old LIMIT dh kdf wdec wtag a privs =
+  Ok (false, wc_compress cfg, [], [], wire_of CHUNK BLOCK ksf tagf cfg (w_out sf)) /\
+  (forall (unauth : bool) (fuel : nat) (cfg' : wconfig) (ct' cm' : list N),
+  cmd_repair_old CHUNK TAG CIPHERBUF BLOCK LIMIT FNMAX CACHE FSBUF TS TC TA TE H pubk dh kdf wenc wdec wtag ksf tagf
+  dstate dinit dstep pfuel unauth fuel a privs cfg' ct' cm' =
+  cmd_repair_old CHUNK TAG CIPHERBUF BLOCK LIMIT FNMAX CACHE FSBUF TS TC TA TE H pubk dh kdf wenc wdec wtag ksf tagf
+  dstate dinit dstep pfuel unauth fuel a [] cfg' ct' cm')).
+Proof. exact repair_key_old_code_refuted. Qed.
+
+(* repair of the intact archive, source without layers, no key, either mode, any target configuration: convert_to_archive ends with
+   EndOfOriginalArchiveData, nothing unfinished; the block list of the new (finalized, well-formed) writer holds under every given
+   name exactly the given bytes; exit status 0 iff the new archive's layers accept the stream.  PARTIAL: sources with the compression
+   layer are not covered, and re-reading the new archive's BYTES through the Reader is not proved here (Tie B compares it) *)
+Theorem C17_repair_intact_preserves_files_partial :
+  forall (CHUNK TAG CIPHERBUF BLOCK LIMIT FNMAX CACHE FSBUF TS TC TA TE : N) (H : bytes -> bytes) 
+  (order : footer -> footer) (pubk : bytes -> bytes) (dh : bytes -> bytes -> bytes) (kdf : bytes -> bytes)
+  (wenc wdec wtag : bytes -> bytes -> bytes) (ksf : bytes -> bytes -> N -> N -> N)
+  (tagf : bytes -> bytes -> N -> bytes -> bytes) (dec : bytes -> bytes) (dstate : Type) (dinit : dstate)
+  (dstep : dstate -> bytes -> N -> dresult * N * bytes * dstate) (pfuel : nat),
+  0 < CHUNK ->
+  0 < TAG ->
+  0 < CIPHERBUF ->
+  0 < BLOCK ->
+  BLOCK < 2 ^ 32 ->
+  FNMAX < 2 ^ 64 ->
+  0 < CACHE ->
+  tags_distinct TS TC TA TE ->
+  (forall x : bytes, len (H x) = 32) ->
+  (forall f : footer, Permutation (order f) f) ->
+  (forall (k : bytes) (m : list N), len m = 32 -> wdec k (wenc k m) = m) ->
+  (forall e : bytes, len (pubk e) = 32) ->
+  (forall (k : bytes) (m : list N), len m = 32 -> len (wenc k m) = 32) ->
+  (forall k c : bytes, len (wtag k c) = 16) ->
+  forall (cfg : wconfig) (ct cm : list N) (files : list (bytes * bytes)) (sf : wstate) (rs : list (res N)) (s : bytes),
+  made_by_create CHUNK TAG BLOCK LIMIT FNMAX TS TC TA TE H order pubk dh kdf wenc wtag ksf tagf dec cfg files sf rs [] s ->
+  wc_encrypt cfg = false ->
+  wc_compress cfg = false ->
+  (forall n d : bytes, In (n, d) files -> len d < 2 ^ 64) ->
+  w_next sf < 2 ^ 64 ->
+  exists a : bytes,
+  archive_write CHUNK CIPHERBUF BLOCK LIMIT FNMAX TS TC TA TE H order pubk dh kdf wenc wtag ksf tagf cfg ct cm
+  (create_ops files) = Ok a /\
+  (forall fuel : nat,
+  (N.to_nat (len (w_out sf)) < fuel)%nat ->
+  exists (out : wstate) (obl : list block),
+  good_output FNMAX TS TC TA TE H out obl /\
+  (forall n d : bytes, In (n, d) files -> content_of (files_of obl) n = d) /\
+  (forall (unauth : bool) (cfg' : wconfig) (ct' cm' : list N),
+  cmd_repair CHUNK TAG CIPHERBUF BLOCK LIMIT FNMAX CACHE FSBUF TS TC TA TE H pubk dh kdf wenc wdec wtag ksf tagf
+  dstate dinit dstep pfuel unauth fuel a [] cfg' ct' cm' =
+  repaired CHUNK CIPHERBUF BLOCK LIMIT pubk dh kdf wenc wtag ksf tagf cfg' ct' cm' out)).
+Proof. exact repair_intact_plain. Qed.
+
+(* the same for a source with the encryption layer, both modes of the fail-safe decryptor *)
+Theorem C17_repair_intact_preserves_files_enc_partial :
+  forall (CHUNK TAG CIPHERBUF BLOCK LIMIT FNMAX CACHE FSBUF TS TC TA TE : N) (H : bytes -> bytes) 
+  (order : footer -> footer) (pubk : bytes -> bytes) (dh : bytes -> bytes -> bytes) (kdf : bytes -> bytes)
+  (wenc wdec wtag : bytes -> bytes -> bytes) (ksf : bytes -> bytes -> N -> N -> N)
+  (tagf : bytes -> bytes -> N -> bytes -> bytes) (dec : bytes -> bytes) (dstate : Type) (dinit : dstate)
+  (dstep : dstate -> bytes -> N -> dresult * N * bytes * dstate) (pfuel : nat),
+  0 < CHUNK ->
+  0 < TAG ->
+  0 < CIPHERBUF ->
+  0 < BLOCK ->
+  BLOCK < 2 ^ 32 ->
+  FNMAX < 2 ^ 64 ->
+  0 < CACHE ->
+  tags_distinct TS TC TA TE ->
+  (forall x : bytes, len (H x) = 32) ->
+  (forall f : footer, Permutation (order f) f) ->
+  (forall (k : bytes) (m : list N), len m = 32 -> wdec k (wenc k m) = m) ->
+  (forall e : bytes, len (pubk e) = 32) ->
+  (forall (k : bytes) (m : list N), len m = 32 -> len (wenc k m) = 32) ->
+  (forall k c : bytes, len (wtag k c) = 16) ->
+  forall (cfg : wconfig) (ct cm : list N) (files : list (bytes * bytes)) (sf : wstate) (rs : list (res N))
+  (privs : list bytes) (s : bytes),
+  made_by_create CHUNK TAG BLOCK LIMIT FNMAX TS TC TA TE H order pubk dh kdf wenc wtag ksf tagf dec cfg files sf rs privs s ->
+  wc_encrypt cfg = true ->
+  wc_compress cfg = false ->
+  (forall n d : bytes, In (n, d) files -> len d < 2 ^ 64) ->
+  w_next sf < 2 ^ 64 ->
+  len (enc_format CHUNK (ksf (wc_key cfg) (wc_nonce cfg)) (tagf (wc_key cfg) (wc_nonce cfg)) (w_out sf)) / (CHUNK + TAG) + 2 <=
+  2 ^ 32 ->
+  exists a : bytes,
+  archive_write CHUNK CIPHERBUF BLOCK LIMIT FNMAX TS TC TA TE H order pubk dh kdf wenc wtag ksf tagf cfg ct cm
+  (create_ops files) = Ok a /\
+  (TagCollision pubk dh kdf wenc wtag (wc_eph cfg) (wc_key cfg) (wc_recipients cfg) privs \/
+  (forall (fuel : nat) (unauth : bool),
+  (N.to_nat (len (w_out sf) + TAG) < fuel)%nat ->
+  exists (out : wstate) (obl : list block),
+  good_output FNMAX TS TC TA TE H out obl /\
+  (forall n d : bytes, In (n, d) files -> content_of (files_of obl) n = d) /\
+  (forall (cfg' : wconfig) (ct' cm' : list N),
+  cmd_repair CHUNK TAG CIPHERBUF BLOCK LIMIT FNMAX CACHE FSBUF TS TC TA TE H pubk dh kdf wenc wdec wtag ksf tagf
+  dstate dinit dstep pfuel unauth fuel a privs cfg' ct' cm' =
+  repaired CHUNK CIPHERBUF BLOCK LIMIT pubk dh kdf wenc wtag ksf tagf cfg' ct' cm' out))).
+Proof. exact repair_intact_enc. Qed.
+
+(* to-tar and paths the tar crate refuses (since repair 6302e72 add_file_to_tar tries the path on a scratch builder first).
+   For ANY member list: the tarball is tar_of of the accepted members only — the independent reader returns exactly the members
+   whose path is accepted (Tar.path_accepted), each under its own tar name with its OWN bytes; a refused member leaves nothing *)
+(* (statement above; sizes_ok = what the types guarantee: u64 sizes, bytes) *)
+Theorem C17_to_tar_refused_member_leaves_nothing :
+  forall ms : list (bytes * bytes),
+  Forall sizes_ok ms ->
+  forall fuel : nat,
+  (2 * length ms < fuel)%nat ->
+  tar_read fuel (tar_of ms) None =
+  Some
+  (map (fun m : bytes * bytes => (tar_name (fst m), snd m)) (filter (fun m : bytes * bytes => path_accepted (fst m)) ms)).
+Proof. exact tar_read_tar_of_all. Qed.
+
+(* composed with the command: for an archive made by create from ANY files (names with `..`, NUL, anything), to-tar exits 0 and its
+   output is read back as exactly the accepted members of the name-sorted files *)
+Theorem C17_to_tar_reads_back :
+  forall (CHUNK TAG CIPHERBUF BLOCK LIMIT FNMAX TS TC TA TE : N) (H : bytes -> bytes) (order : footer -> footer)
+  (pubk : bytes -> bytes) (dh : bytes -> bytes -> bytes) (kdf : bytes -> bytes) (wenc wdec wtag : bytes -> bytes -> bytes)
+  (ksf : bytes -> bytes -> N -> N -> N) (tagf : bytes -> bytes -> N -> bytes -> bytes) (dec : bytes -> bytes),
+  0 < CHUNK ->
+  0 < TAG ->
+  0 < CIPHERBUF ->
+  0 < BLOCK ->
+  BLOCK < 2 ^ 32 ->
+  tags_distinct TS TC TA TE ->
+  (forall x : bytes, len (H x) = 32) ->
+  (forall f : footer, Permutation (order f) f) ->
+  (forall (k : bytes) (m : list N), len m = 32 -> wdec k (wenc k m) = m) ->
+  (forall e : bytes, len (pubk e) = 32) ->
+  (forall (k : bytes) (m : list N), len m = 32 -> len (wenc k m) = 32) ->
+  (forall k c : bytes, len (wtag k c) = 16) ->
+  forall (cfg : wconfig) (ct cm : list N) (files : list (bytes * bytes)) (sf : wstate) (rs : list (res N))
+  (privs : list bytes) (s : bytes) (zf fuel : nat),
+  made_by_create CHUNK TAG BLOCK LIMIT FNMAX TS TC TA TE H order pubk dh kdf wenc wtag ksf tagf dec cfg files sf rs privs s ->
+  (forall n d : bytes, In (n, d) files -> (length d < fuel)%nat) ->
+  Forall sizes_ok files ->
+  exists a : bytes,
+  cmd_create CHUNK CIPHERBUF BLOCK LIMIT FNMAX TS TC TA TE H order pubk dh kdf wenc wtag ksf tagf cfg ct cm files =
+  {| cr_ok := true; cr_out := OWritten a; cr_stdout := [] |} /\
+  (TagCollision pubk dh kdf wenc wtag (wc_eph cfg) (wc_key cfg) (wc_recipients cfg) privs \/
+  (exists t : bytes,
+  cmd_to_tar CHUNK TAG BLOCK LIMIT FNMAX TS TC TA TE dh kdf wdec wtag ksf tagf dec zf fuel a privs =
+  {| cr_ok := true; cr_out := OWritten t; cr_stdout := [] |} /\
+  (forall rfuel : nat,
+  (2 * length files < rfuel)%nat ->
+  tar_read rfuel t None =
+  Some
+  (map (fun m : bytes * bytes => (tar_name (fst m), snd m))
+  (filter (fun m : bytes * bytes => path_accepted (fst m)) (sorted_files files)))))).
+Proof. exact to_tar_reads_back. Qed.
+
+(* what remains (recorded as known finding K17-totar-dotdot-omitted): a member whose path has a `..` component (and is shorter than
+   100 bytes) is OMITTED from the tarball — nothing written, the error goes to stderr, to-tar goes on and exits 0 *)
+Theorem C17_to_tar_dotdot_member_omitted :
+  forall (name : bytes) (size : N) (data : bytes) (complete : bool),
+  In ParentDir (components (tar_path name)) ->
+  len (tar_path name) < NAMEF -> path_accepted name = false /\ tar_member name size data complete = ([], false).
+Proof. exact dotdot_member_omitted. Qed.
+
+(* the two witnesses of the old finding under the repaired code: both `..` members leave nothing, "zz" keeps its own name *)
+Theorem C17_to_tar_dotdot_members_omitted_example :
+  tar_member evil_name (len evil_data) evil_data true = ([], false) /\
+  tar_member [46; 46; 47; 100; 47; 115] (len evil_data) evil_data true = ([], false) /\
+  tar_read 10 (tar_of [(evil_name, evil_data); (good_name, good_data); ([46; 46; 47; 100; 47; 115], evil_data)]) None
+    = Some [(good_name, good_data)].
+Proof. exact tar_member_dotdot_omitted. Qed.
+
+(* THE OLD CODE refuted (Tar.tar_member_old / tar_of_old = add_file_to_tar before 6302e72, confirmed on the old binary): a name
+   with `..` of >= 100 bytes made to-tar emit the GNU long-name member and then fail on the member header; the error was printed
+   and swallowed, so the NEXT member was read by any tar reader under that name: "../d/xxx…" carried the bytes of "zz" *)
+Theorem C17_to_tar_dotdot_old_code_refuted :
+  exists ms, ms = [(evil_name, evil_data); (good_name, good_data)] /\
+    snd (tar_member_old evil_name (len evil_data) evil_data true) = false /\
+    fst (tar_member_old evil_name (len evil_data) evil_data true) = longname_member evil_name /\
+    tar_read 10 (tar_of_old ms) None = Some [(evil_name, good_data)].
+Proof. exact tar_member_dotdot_old_code_refuted. Qed.
+
+(* Tie A: order of "input opened" (1) / "output created" (2) events per command function, the two swallowed-error arms,
+   the tar crate version Tar.v models, the key policy of repair's open, to-tar's dry run *)
+Theorem C17_tieA_event_order :
+  Src.CLI_EVENTS = cli_events /\ Src.CLI_cat_missing_name_continues = 1 /\ Src.CLI_to_tar_swallows_add_errors = 1 /\
+  Src.TAR_CRATE_VERSION = [0; 4; 44] /\
+  (* open_failsafe_mla_file: header read, key-policy refusal, rewind, THEN ArchiveFailSafeReader::from_config *)
+  Src.CLI_repair_refuses_key_on_unencrypted_before_reading = 1 /\
+  (* add_file_to_tar: dry run on a scratch builder (with `?`) before the real append_data *)
+  Src.CLI_to_tar_dry_run_before_append = 1.
+Proof. repeat split; reflexivity. Qed.
+
+Print Assumptions C17_create_lists_given_paths.
+Print Assumptions C17_list_verbose_true_size_and_hash.
+Print Assumptions C17_cat_returns_bytes.
+Print Assumptions C17_cat_missing_name_exit0.
+Print Assumptions C17_to_tar_is_tar_of.
+Print Assumptions C17_tar_reader_reads_tar_of.
+Print Assumptions C17_tar_name_benign.
+Print Assumptions C17_member_ok_benign.
+Print Assumptions C17_convert_is_create.
+Print Assumptions C17_convert_preserves_files.
+Print Assumptions C17_extract_both_forms_agree.
+Print Assumptions C17_failed_open_leaves_no_output.
+Print Assumptions C17_key_for_unencrypted_fails.
+Print Assumptions C17_missing_key_fails_cli.
+Print Assumptions C17_wrong_key_fails_cli.
+Print Assumptions C17_repair_failed_open_leaves_no_output.
+Print Assumptions C17_repair_missing_key_fails.
+Print Assumptions C17_repair_key_for_unencrypted_fails.
+Print Assumptions C17_repair_key_old_code_refuted.
+Print Assumptions C17_repair_intact_preserves_files_partial.
+Print Assumptions C17_repair_intact_preserves_files_enc_partial.
+Print Assumptions C17_to_tar_refused_member_leaves_nothing.
+Print Assumptions C17_to_tar_reads_back.
+Print Assumptions C17_to_tar_dotdot_member_omitted.
+Print Assumptions C17_to_tar_dotdot_members_omitted_example.
+Print Assumptions C17_to_tar_dotdot_old_code_refuted.
+Print Assumptions C17_tieA_event_order.
+
+(* ==================================================================================================== *)
+From MLA Require Import ArchiveInst.
+From MLA.Concrete Require Sha256.
+
+(* ---------- non-vacuity: a concrete instance (no layer; FILENAME_MAX of production so that a 101-byte name is legal) ---------- *)
+Definition x17_files : list (bytes * bytes) :=
+  [ ([98; 46; 116; 120; 116], [1; 2; 3]);                                   (* "b.txt" *)
+    ([47; 97; 98; 115], map (fun i => N.of_nat i mod 251) (seq 0 150));      (* "/abs": absolute *)
+    (repeat 76 101%nat, [7; 7]);                                             (* 101 x "L": GNU long name *)
+    ([97; 47; 120], []) ].                                                   (* "a/x", empty *)
+Definition x17_id (b : bytes) : bytes := b.
+Definition x17_k2 (_ m : bytes) : bytes := m.
+Definition x17_tag (_ _ : bytes) : bytes := repeat 0 16%nat.
+Definition x17_pub (_ : bytes) : bytes := repeat 0 32%nat.
+Definition x17_dh (_ _ : bytes) : bytes := [].
+Definition x17_ksf (_ _ : bytes) (_ _ : N) : N := 0.
+Definition x17_tagf (_ _ : bytes) (_ : N) (_ : bytes) : bytes := repeat 0 16%nat.
+Definition x17_order (f : footer) : footer := f.
+Definition x17_plain : wconfig := mkWC false false x17_id [] [] [] [].
+Notation T1 := Src.BT_FileStart (only parsing). Notation T2 := Src.BT_FileContent (only parsing).
+Notation T3 := Src.BT_EndOfArchiveData (only parsing). Notation T4 := Src.BT_EndOfFile (only parsing).
+Definition x17_run := wrun 65536 T1 T2 T3 T4 Sha256.sha256 x17_order w_init (create_ops x17_files ++ [OFinalize]).
+Definition x17_create := cmd_create 64 24 256 ex3_LIMIT 65536 T1 T2 T3 T4
+   Sha256.sha256 x17_order x17_pub x17_dh x17_id x17_k2 x17_tag x17_ksf x17_tagf x17_plain [10; 0; 33] [] x17_files.
+Definition x17_a : bytes := match cr_out x17_create with OWritten a => a | _ => [] end.
+
+Definition x17_list (a : bytes) (privs : list bytes) := cmd_list_a 64 16 256 ex3_LIMIT x17_dh x17_id x17_k2 x17_tag x17_ksf x17_tagf x17_id a privs.
+Definition x17_cat (to_file : bool) (a : bytes) (privs names : list bytes) :=
+  cmd_cat 64 16 256 ex3_LIMIT 65536 T1 T2 T3 T4 x17_dh x17_id x17_k2 x17_tag x17_ksf x17_tagf x17_id to_file 10 600 a privs names.
+Definition x17_to_tar (a : bytes) (privs : list bytes) :=
+  cmd_to_tar 64 16 256 ex3_LIMIT 65536 T1 T2 T3 T4 x17_dh x17_id x17_k2 x17_tag x17_ksf x17_tagf x17_id 10 600 a privs.
+Definition x17_convert (a : bytes) (privs : list bytes) :=
+  cmd_convert 64 16 24 256 ex3_LIMIT 65536 T1 T2 T3 T4 Sha256.sha256 x17_order x17_pub x17_dh x17_id x17_k2 x17_k2 x17_tag x17_ksf x17_tagf x17_id
+    10 600 a privs x17_plain [] [].
+Definition x17_repair (a : bytes) (privs : list bytes) :=
+  fst (cmd_repair 64 16 24 256 ex3_LIMIT 65536 512 32 T1 T2 T3 T4 Sha256.sha256 x17_pub x17_dh x17_id x17_k2 x17_k2 x17_tag x17_ksf x17_tagf
+         unit tt (fun _ _ _ => (DFailure, 0, [], tt)) 0%nat false 2000 a privs x17_plain [] []).
+Definition x17_repair_old (a : bytes) (privs : list bytes) :=
+  fst (cmd_repair_old 64 16 24 256 ex3_LIMIT 65536 512 32 T1 T2 T3 T4 Sha256.sha256 x17_pub x17_dh x17_id x17_k2 x17_k2 x17_tag x17_ksf x17_tagf
+         unit tt (fun _ _ _ => (DFailure, 0, [], tt)) 0%nat false 2000 a privs x17_plain [] []).
+Definition x17_out (c : cres) : bytes := match cr_out c with OWritten b => b | OUntouched => [] end.
+
+(* the premises of the theorems are met: made_by_create, the laws asked of the (here unused) key wrap, and member_ok of
+   every file (one short relative name, one absolute name, one 101-byte name, one with a directory) *)
+Example C17_nonvacuous_made_by_create :
+  made_by_create 64 16 256 ex3_LIMIT 65536 T1 T2 T3 T4 Sha256.sha256 x17_order x17_pub x17_dh x17_id x17_k2 x17_tag x17_ksf x17_tagf x17_id
+    x17_plain x17_files (fst x17_run) (snd x17_run) [] [] /\
+  (forall k m, len m = 32 -> x17_k2 k (x17_k2 k m) = m) /\ (forall e, len (x17_pub e) = 32) /\
+  (forall k m, len m = 32 -> len (x17_k2 k m) = 32) /\ (forall k c, len (x17_tag k c) = 16) /\
+  (forall f, Permutation (x17_order f) f).
+Proof.
+  split; [constructor|].
+  - vm_compute. reflexivity.
+  - vm_compute. repeat constructor.
+  - vm_compute. reflexivity.
+  - vm_compute. reflexivity.
+  - vm_compute. reflexivity.
+  - discriminate.
+  - discriminate.
+  - reflexivity.
+  - vm_compute. discriminate.
+  - vm_compute. reflexivity.
+  - split; [intros; reflexivity|]. split; [intros; reflexivity|]. split; [intros k m Hm; exact Hm|]. split; [intros; reflexivity|].
+    intros; apply Permutation_refl.
+Qed.
+
+Ltac member_ok_tac :=
+  match goal with |- member_ok (?n, ?d) =>
+    split; [ let r := eval vm_compute in (prepare_path (tar_path n)) in
+             match r with (?p, Some ?f) => exists p, f; vm_compute; reflexivity end
+           | split; [vm_compute; reflexivity | split; [cbn [fst]; unfold wf_bytes; repeat constructor | vm_compute; reflexivity]]]
+  end.
+Example C17_nonvacuous_member_ok : Forall member_ok (sorted_files x17_files).
+Proof.
+  let l := eval vm_compute in (sorted_files x17_files) in change (sorted_files x17_files) with l.
+  repeat (apply Forall_cons; [member_ok_tac|]). apply Forall_nil.
+Qed.
+
+(* create exits 0; list prints the sorted paths *)
+Example C17_example_create_list :
+  cr_ok x17_create = true /\ x17_list x17_a [] = mkCR true OUntouched (flat_map (fun n => n ++ [NL]) (sort_names (map fst x17_files))).
+Proof. repeat split; vm_compute; reflexivity. Qed.
+
+(* cat a/x, a missing name, b.txt: the bytes of b.txt (a/x is empty), exit 0 *)
+Example C17_example_cat :
+  x17_cat false x17_a [] [[97; 47; 120]; [110; 111; 112; 101]; [98; 46; 116; 120; 116]] = mkCR true OUntouched [1; 2; 3].
+Proof. repeat split; vm_compute; reflexivity. Qed.
+
+(* to-tar, read back by the independent reader *)
+Example C17_example_to_tar :
+  cr_ok (x17_to_tar x17_a []) = true /\
+  tar_read 20 (x17_out (x17_to_tar x17_a [])) None = Some (map (fun m => (tar_name (fst m), snd m)) (sorted_files x17_files)).
+Proof. repeat split; vm_compute; reflexivity. Qed.
+
+(* the absolute name "/abs" comes back as "abs" ("./" put in front by mlar, stripped again by set_path), the 101-byte name through a GNU long-name member *)
+Example C17_example_tar_names :
+  map (fun m => tar_name (fst m)) (sorted_files x17_files) = [[97; 98; 115]; repeat 76 101%nat; [97; 47; 120]; [98; 46; 116; 120; 116]].
+Proof. repeat split; vm_compute; reflexivity. Qed.
+
+(* convert exits 0 *)
+Example C17_example_convert :
+  cr_ok (x17_convert x17_a []) = true.
+Proof. repeat split; vm_compute; reflexivity. Qed.
+
+(* a key given for this unencrypted archive: list / to-tar / convert fail with their output untouched, cat -o FILE fails with FILE created empty *)
+Example C17_example_key_for_unencrypted :
+  x17_list x17_a [[1]] = mkCR false OUntouched [] /\ x17_to_tar x17_a [[1]] = mkCR false OUntouched [] /\
+  x17_convert x17_a [[1]] = mkCR false OUntouched [] /\ x17_cat true x17_a [[1]] [[97; 47; 120]] = mkCR false (OWritten []) [].
+Proof. repeat split; vm_compute; reflexivity. Qed.
+
+(* ... and so does repair (repaired code); the old code exited 0 *)
+Example C17_example_repair_refuses_key :
+  x17_repair x17_a [[1]] = mkCR false OUntouched [] /\ cr_ok (x17_repair x17_a []) = true /\ cr_ok (x17_repair_old x17_a [[1]]) = true.
+Proof. repeat split; vm_compute; reflexivity. Qed.
+
+Print Assumptions C17_nonvacuous_made_by_create.
+Print Assumptions C17_nonvacuous_member_ok.
+Print Assumptions C17_example_create_list.
+Print Assumptions C17_example_cat.
+Print Assumptions C17_example_to_tar.
+Print Assumptions C17_example_tar_names.
+Print Assumptions C17_example_convert.
+Print Assumptions C17_example_key_for_unencrypted.
+Print Assumptions C17_example_repair_refuses_key.
